@@ -18,7 +18,17 @@ from vlib import Evidence, Verdict, tlc, log
 def run(tier):
     ev = Evidence("C18", tier, "model_checking")
     vd = Verdict("C18", ev)
-    bins = vlib.build_harness(["vh_plan"])
+    try:
+        bins = vlib.build_harness(["vh_plan"])
+    except vlib.ToolError as e:
+        # reconcile.rs no longer compiles into the harness: decide the table through `bisync --dry-run` plans and real runs
+        log(f"[C18] {e}; falling back to the bisync implementation graph (printed plans vs the table)")
+        import bisync_common
+        r = tlc("Reconcile", "MC_Reconcile_triple.cfg", workers=4, timeout=900, want_payload=False)
+        ev.tlc(r)
+        ev.extra["fallback"] = "harness build failed; reconcile decisions observed through bisync --dry-run plans"
+        bisync_common.run("C18", tier, ev, vd, finish=False, want_label="C15")
+        return vd.finish()
     work = vlib.shm_dir("c18")
     try:
         cases = []
